@@ -41,6 +41,7 @@ class Tracer:
         self._files = {}
         self.delivered = []
         self.in_handler = False
+        self.on_signal = None
         self._local = self._local_impl  # one stable object (CPython 3.12 drops opcode events when f_trace changes)
         # opcode-level pre-emption inside selected functions (thorough deepening of the replace step)
         self.opcode_funcs = set()
@@ -171,6 +172,8 @@ class Tracer:
                          phase=(st.phase() if st else None),
                          stack=self.stack(frame))
             self.delivered.append(f)
+            if self.on_signal is not None:
+                self.on_signal()
             handler = signal.getsignal(int(f["signum"]))
             if callable(handler):
                 self.in_handler = True
